@@ -240,47 +240,12 @@ Proof.
   - exact Heq.
 Qed.
 
-(* ------------------------------------------------------------------ closedness: consequences *)
-Lemma is_dir_nonnil t p : p <> [] -> is_dir t p = true -> lookup t p = Some Dir.
+(* nothing is stored at or below the target of an accepted rename *)
+Lemma removed_target_clear t q :
+  has_children t q = false -> forall k, pre q k -> lookup (remove t q) k = None.
 Proof.
-  intros Hp H. destruct p as [|x p]; [congruence|]. simpl in H.
-  destruct (lookup t (x :: p)) as [[|c]|]; try discriminate. reflexivity.
-Qed.
-
-Lemma closed_root t : closed t -> lookup t [] = None.
-Proof.
-  intros Hc. destruct (lookup t []) eqn:E; [|reflexivity].
-  destruct (Hc []) as [H _]; congruence.
-Qed.
-
-(* every proper ancestor (other than the account root) of a stored object is a folder *)
-Lemma closed_ancestor t p s :
-  closed t -> p <> [] -> s <> [] -> lookup t (p ++ s) <> None -> lookup t p = Some Dir.
-Proof.
-  intros Hc Hp. induction s as [|x s IH] using rev_ind; intros Hs Hl; [congruence|].
-  destruct (Hc _ Hl) as [_ Hd]. rewrite app_assoc, parent_last in Hd.
-  destruct s as [|y s].
-  - rewrite app_nil_r in Hd. apply is_dir_nonnil; assumption.
-  - apply IH; [discriminate|].
-    apply is_dir_nonnil in Hd; [congruence|]. apply app_nonnil_l. exact Hp.
-Qed.
-
-Lemma closed_none_below t p k :
-  closed t -> p <> [] -> lookup t p = None -> pre p k -> lookup t k = None.
-Proof.
-  intros Hc Hp Hn [s Hs]. subst k. destruct s as [|x s]; [rewrite app_nil_r; exact Hn|].
-  destruct (lookup t (p ++ x :: s)) eqn:E; [|reflexivity].
-  assert (H : lookup t p = Some Dir).
-  { apply closed_ancestor with (s := x :: s); try assumption; [discriminate|congruence]. }
-  congruence.
-Qed.
-
-Lemma closed_file_leaf t p c s :
-  closed t -> lookup t p = Some (File c) -> s <> [] -> lookup t (p ++ s) = None.
-Proof.
-  intros Hc Hf Hs. destruct (lookup t (p ++ s)) eqn:E; [|reflexivity].
-  assert (Hp : p <> []). { intros ->. rewrite closed_root in Hf by exact Hc. discriminate. }
-  assert (H : lookup t p = Some Dir).
-  { apply closed_ancestor with (s := s); try assumption. congruence. }
-  congruence.
+  intros Hh k [s Hs]. subst k. rewrite lookup_remove. destruct s as [|x s].
+  - rewrite app_nil_r, path_eqb_refl. reflexivity.
+  - destruct (path_eqb q (q ++ x :: s)); [reflexivity|].
+    apply has_children_false; [exact Hh|discriminate].
 Qed.
